@@ -246,28 +246,30 @@ class SortView(Table):
         source = self.source
         key = self.key
         reverse = self.reverse
+        # N.B., hand the cached objects over now: the view's references may be
+        # dropped by clearcache() while the returned iterator is still in use
         if self.cache and self._memcache is not None:
-            return self._iterfrommemcache()
+            return self._iterfrommemcache(self._hdrcache, self._memcache)
         elif self.cache and self._filecache is not None:
-            return self._iterfromfilecache()
+            return self._iterfromfilecache(self._hdrcache, self._filecache,
+                                           self._getkey)
         else:
             return self._iternocache(source, key, reverse)
 
-    def _iterfrommemcache(self):
+    def _iterfrommemcache(self, hdrcache, memcache):
         debug('iterate from memory cache')
-        yield tuple(self._hdrcache)
-        for row in self._memcache:
+        yield tuple(hdrcache)
+        for row in memcache:
             yield tuple(row)
 
-    def _iterfromfilecache(self):
-        # create a reference to the filecache here, so cleanup happens in the
+    def _iterfromfilecache(self, hdrcache, filecache, getkey):
+        # hold a reference to the filecache here, so cleanup happens in the
         # correct order
-        filecache = self._filecache
         filenames = list(map(operator.attrgetter('name'), filecache))
         debug('iterate from file cache: %r', filenames)
-        yield tuple(self._hdrcache)
+        yield tuple(hdrcache)
         chunkiters = [_iterchunk(fn) for fn in filenames]
-        rows = _mergesorted(self._getkey, self.reverse, *chunkiters)
+        rows = _mergesorted(getkey, self.reverse, *chunkiters)
         try:
             for row in rows:
                 yield tuple(row)
